@@ -53,7 +53,13 @@ def run_module(mod, repo, verif, timeout=3000):
                         os.utime(os.path.join(root, fn), (now, now))
                     except OSError:
                         pass
-            p = subprocess.run(cmd, cwd=scratch, env=env, stdout=subprocess.PIPE, stderr=subprocess.STDOUT, text=True, timeout=timeout)
+            # address-space cap for cargo and the test binary: a test that observes a non-terminating evaluation leaves a
+            # thread behind that may allocate without bound (seen: 25 GB in three minutes); the binary then dies instead of
+            # taking the machine down, and the module counts as 'did not run'
+            def _cap():
+                import resource
+                resource.setrlimit(resource.RLIMIT_AS, (24 << 30, 24 << 30))
+            p = subprocess.run(cmd, cwd=scratch, env=env, stdout=subprocess.PIPE, stderr=subprocess.STDOUT, text=True, timeout=timeout, preexec_fn=_cap)
         out = p.stdout
         if 'test result:' not in out:
             return False, [], out[-3000:]
